@@ -5,6 +5,11 @@
 //   D33: `self.edges.by_ref().find(p)` is written as a call of the TRUSTED stand-in `ex_find` (fragment ex_find.rs).
 // ======================================================================================
 
+/// keep a reference iff its target is t
+pub open spec fn to_target<'a, E, Ix: IndexType>(t: NodeIndex<Ix>) -> spec_fn(EdgeReference<'a, E, Ix>) -> Option<EdgeReference<'a, E, Ix>> {
+    |e: EdgeReference<'a, E, Ix>| if e.node[1].i() == t.i() { Some(e) } else { None }
+}
+
 //@ item src/graph_impl/mod.rs | - | struct EdgesConnecting
 /// Iterator over the multiple directed edges connecting a source node to a target node
 pub struct EdgesConnecting<'a, E: 'a, Ty, Ix: 'a = DefaultIx>
